@@ -199,3 +199,8 @@ mod tests {
         }
     }
 }
+
+#[cfg(kani)]
+mod verif_kani {
+    include!(concat!(env!("REPE_VERIF_KANI"), "/error.rs"));
+}
